@@ -487,6 +487,9 @@ func (s *Session) sendMessage(msg storage.Message) {
 	}()
 
 	scanner := bufio.NewScanner(reader)
+	// A line can be as long as the message itself, the default 64 KiB token limit would
+	// truncate the response at the first longer line.
+	scanner.Buffer(nil, int(msg.Size())+1)
 	for scanner.Scan() {
 		line := scanner.Text()
 		// Lines starting with . must be prefixed with another .
@@ -520,6 +523,9 @@ func (s *Session) sendMessageTop(msg storage.Message, lineCount int) {
 	}()
 
 	scanner := bufio.NewScanner(reader)
+	// A line can be as long as the message itself, the default 64 KiB token limit would
+	// truncate the response at the first longer line.
+	scanner.Buffer(nil, int(msg.Size())+1)
 	inBody := false
 	for scanner.Scan() {
 		line := scanner.Text()
